@@ -10,6 +10,7 @@ import (
 
 	"go.opentelemetry.io/collector/component"
 	"go.opentelemetry.io/collector/component/componentstatus"
+	"go.opentelemetry.io/collector/internal/sharedcomponent"
 	"go.opentelemetry.io/collector/pipeline"
 	"go.opentelemetry.io/collector/service"
 	"go.opentelemetry.io/collector/service/internal/status"
@@ -162,14 +163,146 @@ func runC11(r *simkit.Run) {
 		runC11Enumerate(r)
 		return
 	}
-	switch r.Tape.Weighted(7, 1, 2) {
+	switch r.Tape.Weighted(7, 1, 2, 2) {
 	case 0:
 		runC11Direct(r, false)
 	case 1:
 		runC11Direct(r, true)
+	case 3:
+		runC11Shared(r)
 	default:
 		runC11Service(r)
 	}
+}
+
+// ---- shared component driven directly: instances attach while the component keeps reporting -------------------
+
+type sharedStub struct {
+	host component.Host
+}
+
+func (c *sharedStub) Start(_ context.Context, h component.Host) error { c.host = h; return nil }
+func (c *sharedStub) Shutdown(context.Context) error                  { return nil }
+
+// instHost is what the graph hands to a component for one instance: reports go to the service's reporter under the
+// instance's id.
+type instHost struct {
+	id  *componentstatus.InstanceID
+	rep status.Reporter
+}
+
+func (h instHost) GetExtensions() map[component.ID]component.Component { return nil }
+func (h instHost) Report(e *componentstatus.Event)                     { h.rep.ReportStatus(h.id, e) }
+
+// runC11Shared: one component wrapped by the real internal/sharedcomponent and represented by 2-4 instances (as a
+// receiver serving several signals). The tape interleaves "the service starts the next instance" (Starting from the
+// service, Start on the shared wrapper, automatic OK) with reports of the running component - any number of them
+// between two attachments - and finally stops every instance. Clauses: every instance's delivered sequence is a path
+// of the diagram, and the component's status reaches every instance it represents: after each step the most recent
+// report of the component either is the current status of every attached instance or is not a transition of the
+// diagram from that instance's current status (nothing else may keep it from arriving; how much older history a
+// late-attached instance is shown is not prescribed).
+func runC11Shared(r *simkit.Run) {
+	tp := r.Tape
+	ninst := tp.Range(2, 4)
+	var mu sync.Mutex
+	per := make([][]st, ninst)
+	idx := map[*componentstatus.InstanceID]int{}
+	rep := status.NewReporter(func(id *componentstatus.InstanceID, ev *componentstatus.Event) {
+		mu.Lock()
+		per[idx[id]] = append(per[idx[id]], ev.Status())
+		mu.Unlock()
+	}, func(error) {})
+	ids := make([]*componentstatus.InstanceID, ninst)
+	sigs := []pipeline.Signal{pipeline.SignalLogs, pipeline.SignalTraces, pipeline.SignalMetrics, pipeline.SignalLogs}
+	for i := range ids {
+		ids[i] = componentstatus.NewInstanceID(component.MustNewIDWithName("shr", "1"), component.KindReceiver, pipeline.NewIDWithName(sigs[i], fmt.Sprint("p", i)))
+		idx[ids[i]] = i
+	}
+	m := sharedcomponent.NewMap[string, *sharedStub]()
+	stub := &sharedStub{}
+	comps := make([]*sharedcomponent.Component[*sharedStub], ninst)
+	for i := range comps {
+		c, err := m.LoadOrStore("shr/1", func() (*sharedStub, error) { return stub, nil })
+		if err != nil {
+			panic(err)
+		}
+		comps[i] = c
+	}
+	attached := 0
+	var last *st // most recent report of the component
+	cur := func(i int) st {
+		if len(per[i]) == 0 {
+			return sNone
+		}
+		return per[i][len(per[i])-1]
+	}
+	check := func(when string) {
+		if last == nil {
+			return
+		}
+		for i := 0; i < attached; i++ {
+			c := cur(i)
+			if c != *last && refTransition(c, *last) == must {
+				r.Failf("shared", "status-not-delivered-to-instance", "%s: the component's most recent report is %s; instance %d (of %d attached) is in %s, from where %s is a transition of the diagram, so the report did not reach it; sequences %v", when, *last, i, attached, c, *last, per[:attached])
+			}
+		}
+	}
+	attach := func() {
+		i := attached
+		// the service: Starting, Start, automatic OK if the instance is still Starting
+		rep.ReportStatus(ids[i], componentstatus.NewEvent(sStart))
+		if err := comps[i].Start(context.Background(), instHost{id: ids[i], rep: rep}); err != nil {
+			panic(err)
+		}
+		rep.ReportOKIfStarting(ids[i])
+		attached++
+		if i > 0 {
+			r.Count("probe.late_instance_attached")
+		}
+	}
+	steps := tp.Range(3, 18)
+	r.Sample = map[string]any{"mode": "shared-direct", "instances": ninst, "steps": steps}
+	r.Fire("attach:0", attach)
+	nrep := 0
+	for s := 0; s < steps && !r.Failed(); s++ {
+		if attached < ninst && tp.Chance(1, 4) {
+			i := attached
+			r.Fire(fmt.Sprintf("attach:%d", i), attach)
+			if nrep >= 5 {
+				r.Count("probe.late_instance_attached_after_5_or_more_reports")
+			}
+			check(fmt.Sprintf("after instance %d attached", i))
+			continue
+		}
+		x := []st{sOK, sRec, sOK, sRec, sRec, sPerm, sStopg, sStart}[tp.Weighted(6, 6, 3, 3, 2, 1, 1, 1)]
+		r.Fire("component-report:"+x.String(), func() {
+			componentstatus.ReportStatus(stub.host, componentstatus.NewEvent(x))
+		})
+		nrep++
+		last = &x
+		check("after the component reported " + x.String())
+	}
+	for attached < ninst && !r.Failed() {
+		i := attached
+		r.Fire(fmt.Sprintf("attach:%d", i), attach)
+		check(fmt.Sprintf("after instance %d attached", i))
+	}
+	// the service stops every instance
+	for i := 0; i < attached && !r.Failed(); i++ {
+		i := i
+		r.Fire(fmt.Sprintf("stop:%d", i), func() {
+			rep.ReportStatus(ids[i], componentstatus.NewEvent(sStopg))
+			_ = comps[i].Shutdown(context.Background())
+			rep.ReportStatus(ids[i], componentstatus.NewEvent(sStopd))
+		})
+	}
+	for i := 0; i < attached; i++ {
+		checkPath(r, fmt.Sprintf("instance %d", i), per[i])
+		r.Logf("  instance %d: %v", i, per[i])
+	}
+	r.Nontrivial = true
+	r.State(fmt.Sprintf("shared inst=%d reports=%d", ninst, nrep/4), "end")
 }
 
 func runC11Direct(r *simkit.Run, burst bool) {
